@@ -54,6 +54,12 @@ CLAIMS = {
             "thorough: every bit) and each execution must be explained by the contract with the invariant holding in every explaining state.",
             "Trusted: TLC, the proxy (it logs the fault it effectively applied). Multi-fault schedules are explored in the model only.",
             "4/C10"),
+    "C12": ("model_checking",
+            "TLC evaluation of ImportJudge.tla (curve membership / ranges in BigNat with residue witnesses) over the product import-path x value-class, replayed into every import interface",
+            "TLC decides for each enumerated (path, value class) whether the import must succeed -- coordinates below p, curve equation (exact big-integer check of the residue witness), never infinity, scalar in [1, n-2], "
+            "container public key matching -- and the library's verdict and exported coordinates are compared with it on all paths (raw, octets incl. every prefix class, SPKI DER/PEM, certificate, TLS key exchange and key share, ECDH peer, ECPrivateKey, PKCS#8, SM2 C1, SM9 points, compress/decompress).",
+            "Trusted: TLC; container encodings and witnesses from the references (a wrong witness cannot make a wrong verdict pass); reference [d]G and SM9 twist membership as oracle columns.",
+            "4/C12"),
     "C18": ("fault_enumeration",
             "TLC model checking of Entropy.tla + link-time getentropy interposition with a failure injected at every draw index, validated against EntropyTrace.tla",
             "Every randomised API operation and the three handshakes in both roles are run clean, on an equal and a different entropy stream, repeated within one stream, and with the source failing at each draw index; "
